@@ -1215,7 +1215,9 @@ def populate_constructors_extra_info(cls:model.Class) -> None:
             if i != 0:
                 extra_epytext += ', '
             short_text = format_constructor_short_text(c, cls)
-            extra_epytext += '`%s <%s>`' % (short_text, c.fullName())
+            # names come from the source (and from file names): nothing in them may end the interpreted text or the paragraph
+            extra_epytext += '`%s <%s>`' % tuple(re.sub(r'([\\`])', r'\\\1', ' '.join(text.split())) 
+                                                   for text in (short_text, c.fullName()))
         
         cls.extra_info.append(parse_docstring(
             cls, extra_epytext, cls, 'restructuredtext', section='constructor extra'))
